@@ -265,6 +265,13 @@ func jsonType(v reflect.Value) (string, bool) {
 		}
 		return "number", true
 	}
+	if isJSONNumber(v) {
+		// A json.Number has kind String, but it holds a JSON number.
+		if r, ok := jsonNumber(v); ok && r.IsInt() {
+			return "integer", true
+		}
+		return "number", true
+	}
 	switch v.Kind() {
 	case reflect.Bool:
 		return "boolean", true
@@ -277,6 +284,11 @@ func jsonType(v reflect.Value) (string, bool) {
 	default:
 		return "", false
 	}
+}
+
+// isJSONNumber reports whether v holds a [json.Number].
+func isJSONNumber(v reflect.Value) bool {
+	return v.IsValid() && v.Type() == reflect.TypeFor[json.Number]()
 }
 
 func assert(cond bool, msg string) {
